@@ -43,6 +43,7 @@ def c04_projects(quick: bool, rng: random.Random) -> List[Dict[str, Any]]:
     ps += [p for p in families.t3_reexport() if p["meta"].get("idiom") in ("moved-module", "module-alias-handed-on")
            or (p["meta"].get("form") == "plain" and p["meta"].get("consumers") in (["o"], ["o2"], ["o", "r"]))]
     ps += list(families.t1_base_chains())[:: (6 if quick else 1)] + list(families.t6_nested_packages())
+    ps += list(families.t15_rebinding())
     if not quick:
         ps += [families.random_project(rng, rng.randint(3, 5)) for _ in range(150)]
     return [p for p in ps if len(P.schedules(p)) <= 24]
@@ -190,6 +191,31 @@ def judge_xrefs(ctx: Ctx, proj: Dict[str, Any], sched: List[int], xrefs: List[Di
                                                          "name": ident, "spec": [want, row["amb"], row["step"]], "real": [got, rep.amb, rep.notfound]})
 
 
+def kf_definition_then_import(w: Dict[str, Any]) -> bool:
+    """Known finding: a name defined in a module (class / def / assignment) and LATER bound again by an import in the same
+       scope: pydoctor's lookup prefers the members of the module over its import table whatever the order, so the name
+       (seen from inside, through `from m import name` or through a module alias) leads to the shadowed definition."""
+    if w.get("invariant") != "ResolvesRightOrNot" or not w.get("got_site"):
+        return False
+    mi, pc = w["got_site"]
+    mods = w.get("origin", {}).get("project", {}).get("mods", [])
+    if not (0 < mi <= len(mods)) or not (0 < pc <= len(mods[mi - 1]["ops"])):
+        return False
+    ops = mods[mi - 1]["ops"]
+    d = ops[pc - 1]
+    if d["k"] not in ("class", "def", "var") or d.get("ann"):
+        return False
+    depth = 0
+    for op in ops[pc - 1:]:
+        if op["k"] == "class":
+            depth += 1
+        elif op["k"] == "endclass":
+            depth -= 1
+        elif depth == 0 and op["k"] == "from" and op["as"] == d["n"]:
+            return True
+    return False
+
+
 def check_pybind_vs_cpython(ctx: Ctx, proj: Dict[str, Any], rows: List[Dict[str, Any]], pid: int) -> int:
     d = ctx.scratch / f"cpy_{pid}"
     d.mkdir()
@@ -231,6 +257,7 @@ def check_pybind_vs_cpython(ctx: Ctx, proj: Dict[str, Any], rows: List[Dict[str,
 
 def run(ctx: Ctx) -> int:
     rng = random.Random(ctx.seed)
+    ctx.register_matcher("definition-then-import-of-same-name", kf_definition_then_import)
     projs = c04_projects(ctx.quick, rng)
     counters: Dict[str, int] = collections.Counter()
     validated_names = 0
